@@ -212,6 +212,11 @@ func (m *machine) Step(op Op) error {
 		case 5:
 			s := []at.Object{}
 			for _, sp := range op.Vals {
+				if sp.K == KNil {
+					s = append(s, nil) // a nil interface entry becomes the nil kind
+					vs = append(vs, mval{k: KNil})
+					continue
+				}
 				n := m.object(sp.Ref)
 				s = append(s, n.impl.(at.Object))
 				vs = append(vs, mval{k: KObject, ref: n})
@@ -220,6 +225,11 @@ func (m *machine) Step(op Op) error {
 		case 6:
 			s := []at.List{}
 			for _, sp := range op.Vals {
+				if sp.K == KNil {
+					s = append(s, nil)
+					vs = append(vs, mval{k: KNil})
+					continue
+				}
 				n := m.list(sp.Ref)
 				s = append(s, n.impl.(at.List))
 				vs = append(vs, mval{k: KList, ref: n})
@@ -633,6 +643,11 @@ func (m *machine) Step(op Op) error {
 		case 5:
 			mm := map[string]at.Object{}
 			for i := 0; i < np; i++ {
+				if op.Vals[i].K == KNil {
+					mm[op.Keys[i]] = nil
+					f[op.Keys[i]] = mval{k: KNil}
+					continue
+				}
 				n := m.object(op.Vals[i].Ref)
 				mm[op.Keys[i]] = n.impl.(at.Object)
 				f[op.Keys[i]] = mval{k: KObject, ref: n}
@@ -641,6 +656,11 @@ func (m *machine) Step(op Op) error {
 		case 6:
 			mm := map[string]at.List{}
 			for i := 0; i < np; i++ {
+				if op.Vals[i].K == KNil {
+					mm[op.Keys[i]] = nil
+					f[op.Keys[i]] = mval{k: KNil}
+					continue
+				}
 				n := m.list(op.Vals[i].Ref)
 				mm[op.Keys[i]] = n.impl.(at.List)
 				f[op.Keys[i]] = mval{k: KList, ref: n}
